@@ -322,6 +322,7 @@ func underSim(f func()) error {
 	count("sched_switches", int64(sim.Switches))
 	count("sched_spawned_goroutines", int64(sim.Spawned))
 	count("sched_leaked_goroutines", int64(sim.Leaked))
+	count("sched_stray_goroutine_calls", int64(simrt.TakeStrayCalls()))
 	if sim.Switches > 0 {
 		seen("seqsched", sim.Sig)
 	}
@@ -331,6 +332,11 @@ func underSim(f func()) error {
 	case *simrt.StepLimit, *simrt.Inconclusive:
 		count("seq_sim_inconclusive", 1)
 		return nil
+	case *simrt.TaskPanic:
+		// a panic of the operation (or of a goroutine it started: that would end the process) is a panic of the
+		// operation for the caller too: callers recover it exactly as they do without the scheduler
+		count("seq_sim_panics", 1)
+		panic(e.Value)
 	default:
 		return &seqHang{e.Error()}
 	}
